@@ -19,7 +19,7 @@ RULE = (
     "cm equal (exact) at every threshold inside the materialised range (at scores, +-1 ulp, between, at the range ends); full and partial AUC "
     "equal (1e-9); all six rates equal; for each of the six metrics and each target, if the materialised threshold lies within [min,max] of the "
     "relevant scored samples, the two thresholds agree (8 ulp + 1e-9*span). W1: k,m in 0..60 incl. (0,m),(k,0), 4 cfg, 12 score classes incl. "
-    "ties, grid and off-grid targets. Non-trivial: k+m > 0; distinct = hash of inputs."
+    "ties, grid and off-grid targets; the declaring object is built by the constructor, or obtained by swap() from its mirror image (fresh, or after the parent answered threshold/EER/bootstrap queries), or queried in another order first. Non-trivial: k+m > 0; distinct = hash of inputs."
 )
 ASSUMPTIONS = ["both classes non-empty, finite scores", "materialised extremes are distinct and at distance >= 0.5 from the scored range"]
 METRICS = ["tpr", "fnr", "tnr", "fpr", "topr", "tonr"]
@@ -37,7 +37,8 @@ def cases(ctx):
         en = int(rng.choice([0, 1, 2, 5, 9, 33, 60]))
         sc, ec = gen.cfg(rng)
         yield {"pos": pos, "neg": neg, "ep": ep, "en": en, "sc": sc, "ec": ec, "kind": kind, "d": float(rng.uniform(0.5, 3)),
-               "rs": np.concatenate([rng.uniform(0, 1, 6), rng.integers(0, 51, 3) / 50.0]), "lu": np.sort(rng.uniform(0, 1, 2)), "_seed": int(rng.integers(1 << 31))}
+               "rs": np.concatenate([rng.uniform(0, 1, 6), rng.integers(0, 51, 3) / 50.0]), "lu": np.sort(rng.uniform(0, 1, 2)), "_seed": int(rng.integers(1 << 31)),
+               "via": str(rng.choice(["ctor", "ctor", "swap_of_warm_parent", "swap_of_fresh_parent", "queried_before"]))}
 
 
 def execute(ctx, case):
@@ -50,13 +51,32 @@ def execute(ctx, case):
     allv = np.concatenate([pos, neg])
     lo_, hi_ = float(allv.min()), float(allv.max())
     span = max(1.0, hi_ - lo_, abs(lo_), abs(hi_))
-    s = Scores(pos, neg, nb_easy_pos=ep, nb_easy_neg=en, score_class=sc, equal_class=ec)
+    via = case.get("via", "ctor")
+    if via.startswith("swap_of"):
+        # the object under test is obtained by swap() from its mirror image - a history, not a constructor call; with
+        # "warm" the parent has answered threshold / EER / bootstrap queries before (anything it memoised must not leak)
+        flip = {"pos": "neg", "neg": "pos"}
+        parent = Scores(neg, pos, nb_easy_pos=en, nb_easy_neg=ep, score_class=flip[sc], equal_class=flip[ec])
+        if via == "swap_of_warm_parent":
+            for m in METRICS:
+                getattr(parent, "threshold_at_" + m)(case["rs"][:3])
+            parent.eer()
+            parent.auc()
+            np.random.seed(case["_seed"])
+            parent.bootstrap_sample()
+        s = parent.swap()
+    else:
+        s = Scores(pos, neg, nb_easy_pos=ep, nb_easy_neg=en, score_class=sc, equal_class=ec)
+        if via == "queried_before":  # queries in a different order first
+            s.eer()
+            for m in reversed(METRICS):
+                getattr(s, "threshold_at_" + m)(case["rs"][-2:])
     hi_ext = hi_ + d + np.arange(max(ep, en, 1)) * 0.37
     lo_ext = lo_ - d - np.arange(max(ep, en, 1)) * 0.41
     pe, ne = (hi_ext[:ep], lo_ext[:en]) if sc == "pos" else (lo_ext[:ep], hi_ext[:en])
     mt = Scores(np.concatenate([pos, pe]), np.concatenate([neg, ne]), score_class=sc, equal_class=ec)
-    sig = (sc, ec, case["kind"], ep > 0, en > 0)
-    w = lambda **kw: (lambda: dict({"pos": pos, "neg": neg, "easy": [ep, en], "cfg": [sc, ec], "materialised_pos": pe, "materialised_neg": ne}, **kw))  # noqa: E731
+    sig = (sc, ec, case["kind"], ep > 0, en > 0, via)
+    w = lambda **kw: (lambda: dict({"pos": pos, "neg": neg, "easy": [ep, en], "cfg": [sc, ec], "materialised_pos": pe, "materialised_neg": ne, "via": via}, **kw))  # noqa: E731
     sess.observe("R-easy")
     C = lambda ok, what, key, **kw: sess.check("R-easy", bool(ok), what, w(**kw), sig=sig, key=key)  # noqa: E731
     inner_lo, inner_hi = lo_ - d * 0.99, hi_ + d * 0.99
